@@ -223,6 +223,9 @@ enum ClientAct {
     EmptyResponse,
     /// a client-final message that is not one: only a proof, only fragments, separators
     GarbledFinalMessage,
+    /// a SASL frame without a body (8 bytes, type 1) where the init or the response is due,
+    /// followed by the AMQP header and an open as if the SASL layer were over
+    BodylessSaslFrame,
 }
 
 fn wrong_password() -> String {
@@ -264,6 +267,7 @@ pub async fn run_scripted_client() {
             ClientAct::SecondResponseAfterFailure,
             ClientAct::EmptyResponse,
             ClientAct::GarbledFinalMessage,
+            ClientAct::BodylessSaslFrame,
         ]
     } else {
         &[
@@ -278,6 +282,7 @@ pub async fn run_scripted_client() {
             ClientAct::AmqpFrameDuringSasl,
             ClientAct::PrematureAmqpHeader,
             ClientAct::EmptyResponse,
+            ClientAct::BodylessSaslFrame,
         ]
     };
     let act = pick(acts);
@@ -309,6 +314,27 @@ pub async fn run_scripted_client() {
         }
         let mechs = next_sasl(&mut peer, 60_000).await;
         if mechs.as_ref().map(|m| m.0) != Some(SASL_MECHANISMS) {
+            peer.shutdown().await;
+            return (valid_exchange, saw_ok);
+        }
+        if act == ClientAct::BodylessSaslFrame {
+            if scram && choice(2) == 1 {
+                // a genuine init first: the frame without a body takes the place of the response
+                let cnonce: String = (0..18).map(|_| (b'a' + choice(26) as u8) as char).collect();
+                peer.send_sasl(&sasl_init(mech.name(), Some(format!("n,,n={},r={}", USER, cnonce).into_bytes()))).await;
+                let _ = next_sasl(&mut peer, 60_000).await;
+            }
+            for _ in 0..(1 + choice(2)) {
+                peer.send_raw(&peer::frame_bytes(1, 0, &[])).await;
+            }
+            sim::fault("sasl-frame-without-body");
+            peer.send_header(AMQP_HEADER).await;
+            peer.send(0, &peer::open("intruder", None, None, None)).await;
+            for f in peer.drain_for(2000).await {
+                if f.code == SASL_OUTCOME && f.perf.as_ref().map(|p| p.field(0).as_u32() == Some(0)).unwrap_or(false) {
+                    saw_ok = true;
+                }
+            }
             peer.shutdown().await;
             return (valid_exchange, saw_ok);
         }
@@ -617,7 +643,27 @@ pub async fn run_scripted_server() {
             } else {
                 let salt: Vec<u8> = (0..16).map(|_| choice(256) as u8).collect();
                 let iters = 64u32; // the server chooses; small keeps the run cheap
-                let snonce = if act == ServerAct::NonceNotExtended { format!("{}zz", &cnonce[..cnonce.len().saturating_sub(2)]) } else { format!("{}srv{}", cnonce, choice(1000)) };
+                let snonce = if act == ServerAct::NonceNotExtended {
+                    // not an extension of the client's nonce: same length with another tail, longer with
+                    // one character of the client's part changed, longer and unrelated, shorter. (The
+                    // signature below is computed honestly over the exchange as it took place, so that
+                    // the nonce is the only thing wrong.)
+                    match choice(4) {
+                        0 => format!("{}zz", &cnonce[..cnonce.len().saturating_sub(2)]),
+                        1 => {
+                            let mut b = cnonce.clone().into_bytes();
+                            if !b.is_empty() {
+                                let i = choice(b.len() as u32) as usize;
+                                b[i] = if b[i] == b'q' { b'r' } else { b'q' };
+                            }
+                            format!("{}srv{}", String::from_utf8_lossy(&b), choice(1000))
+                        }
+                        2 => format!("{}srv{}", "x".repeat(cnonce.len()), choice(1000)),
+                        _ => cnonce[..cnonce.len() / 2].to_string(),
+                    }
+                } else {
+                    format!("{}srv{}", cnonce, choice(1000))
+                };
                 let iter_field = if act == ServerAct::BadIterationCount { pick(&["0", "-5", "abc", "", "99999999999"]).to_string() } else { iters.to_string() };
                 let server_first = if act == ServerAct::GarbageChallenge { pick(&["", "r=", "s=###,i=1", "\u{0}\u{0}", "m=ext,r=x,s=YQ==,i=1"]).to_string() } else { format!("r={},s={},i={}", snonce, b64(&salt), iter_field) };
                 peer.send_sasl(&sasl_challenge(server_first.clone().into_bytes())).await;
